@@ -95,4 +95,173 @@ theorem cost_RTE (st st' : Cpu) (c : BitVec 8) (h : rte st = .ok c st') :
   simp only [modify_ok, pure_ok] at h
   cost3_keep
 
+/-! ### branches and jumps: fetch cycles (and two internal states) only; BSR d:16 / JSR @aa:24 as BSR d:8 plus two
+    internal states.  The charge is looked up in the state the instruction leaves (only PC / SP / the frame differ from
+    the state before, neither of which the lookup reads). -/
+
+/-- `c` = `costI i` in the final state + `n` internal states -/
+def ChargedFinal (i n : BitVec 8) (s : Cpu) (c : BitVec 8) : Prop := ∃ c1, costI i s = .ok c1 s ∧ c = c1 + n
+
+set_option hygiene false in
+local macro "costIN_keep" : tactic => `(tactic|
+  (split at h
+   case h_2 => simp at h
+   case h_3 => simp at h
+   rename_i c1 sa h1; have e1 := costI_state h1; subst e1
+   split at h
+   case h_2 => simp at h
+   case h_3 => simp at h
+   rename_i c2 sb h2; have e2 := calcState_state h2; subst e2
+   have hn := C20M.calcState_N _ _ _ _ h2; subst hn
+   injection h with hc hs; subst hs
+   exact ⟨c1, h1, hc.symm⟩))
+
+theorem cost_BCC_D8 (cnd : BitVec 4) (op : BitVec 16) (st st' : Cpu) (c : BitVec 8) (h : bcc8 cnd op st = .ok c st') :
+    ChargedFinal 2 0 st' c ∧ Spec.Form.mix .BCC_D8 = { i := 2 } := by
+  refine ⟨?_, rfl⟩
+  simp only [bcc8, bind_ok, get_ok] at h
+  split at h
+  · simp only [bind_ok, pure_ok] at h
+    split at h
+    case h_2 => simp at h
+    case h_3 => simp at h
+    have hs := costI_state h; subst hs
+    exact ⟨c, h, by simp⟩
+  · try simp only [pure_ok, bind_ok] at h
+    have hs := costI_state h; subst hs
+    exact ⟨c, h, by simp⟩
+
+theorem cost_BCC_D16 (cnd : BitVec 4) (st s1 st' : Cpu) (op2 : BitVec 16) (c : BitVec 8)
+    (hf : fetch st = .ok op2 s1) (h : bcc16 cnd st = .ok c st') :
+    ChargedFinal 2 2 st' c ∧ Spec.Form.mix .BCC_D16 = { i := 2, n := 2 } := by
+  refine ⟨?_, rfl⟩
+  simp only [bcc16, bind_ok, hf, get_ok] at h
+  split at h
+  · simp only [bind_ok, pure_ok] at h
+    split at h
+    case h_2 => simp at h
+    case h_3 => simp at h
+    costIN_keep
+  · simp only [bind_ok, pure_ok] at h
+    costIN_keep
+
+theorem cost_JMP_REG (op : BitVec 16) (st st' : Cpu) (c : BitVec 8)
+    (hp : Spec.Form.pat .JMP_REG op 0 0 0 0 = true) (h : jmpErn op st = .ok c st') :
+    ChargedFinal 2 0 st' c ∧ Spec.Form.mix .JMP_REG = { i := 2 } := by
+  refine ⟨?_, rfl⟩
+  rw [Spec.pat_JMP_REG] at hp; simp only [Bool.and_eq_true, beq_iff_eq] at hp
+  have h3 : (nib op 3).ule 7#8 = true := by (simp only [nib]; bv_decide)
+  simp only [jmpErn, bind_ok, readRnL_ok _ _ h3, modify_ok] at h
+  have hs := costI_state h; subst hs
+  exact ⟨c, h, by simp⟩
+
+theorem cost_JMP_ABS (op lo : BitVec 16) (st s1 st' : Cpu) (c : BitVec 8)
+    (hf : fetch st = .ok lo s1) (h : jmpAbs op st = .ok c st') :
+    ChargedFinal 2 2 st' c ∧ Spec.Form.mix .JMP_ABS = { i := 2, n := 2 } := by
+  refine ⟨?_, rfl⟩
+  simp only [jmpAbs, bind_ok, hf, modify_ok, pure_ok] at h
+  costIN_keep
+
+theorem cost_BSR_D16 (op op2 : BitVec 16) (st s1 st' : Cpu) (c : BitVec 8)
+    (hf : fetch st = .ok op2 s1) (h : bsrDisp16 op st = .ok c st') :
+    ChargedAt 2 .K 2 (frameAddr st.regs) 2 st' c ∧ Spec.Form.mix .BSR_D16 = { i := 2, k := 2, n := 2 } := by
+  refine ⟨?_, rfl⟩
+  simp only [bsrDisp16, bind_ok, readRnL_ok _ _ seven_ok, hf, get_ok] at h
+  split at h
+  case h_2 => simp at h
+  case h_3 => simp at h
+  rename_i u s2 hpush
+  simp only [modify_ok, pure_ok] at h
+  cost3_keep
+
+theorem cost_JSR_ABS (op op2 : BitVec 16) (st s1 st' : Cpu) (c : BitVec 8)
+    (hf : fetch st = .ok op2 s1) (h : jsrAbs op st = .ok c st') :
+    ChargedAt 2 .K 2 (frameAddr st.regs) 2 st' c ∧ Spec.Form.mix .JSR_ABS = { i := 2, k := 2, n := 2 } := by
+  refine ⟨?_, rfl⟩
+  simp only [jsrAbs, bind_ok, readRnL_ok _ _ seven_ok, hf, get_ok] at h
+  split at h
+  case h_2 => simp at h
+  case h_3 => simp at h
+  rename_i u s2 hpush
+  simp only [modify_ok, pure_ok] at h
+  cost3_keep
+
+theorem cost_JMP_MEMIND (op : BitVec 16) (st st' : Cpu) (c : BitVec 8) (h : jmpIndirect op st = .ok c st') :
+    ChargedAt 2 .J 2 ((op &&& 0x00ff).setWidth 32) 2 st' c ∧ Spec.Form.mix .JMP_MEMIND = { i := 2, j := 2, n := 2 } := by
+  refine ⟨?_, rfl⟩
+  simp only [jmpIndirect, bind_ok] at h
+  split at h
+  case h_2 => simp at h
+  case h_3 => simp at h
+  rename_i t s1 hrd
+  simp only [modify_ok, pure_ok] at h
+  cost3_keep
+
+/-! ### AND.L / OR.L / XOR.L ERs,ERd (two fetch cycles) and STC.B CCR,Rd (one) -/
+
+set_option hygiene false in
+local macro "logicL_cost" pl:ident : tactic => `(tactic|
+  (refine ⟨?_, rfl⟩
+   rw [$pl:ident] at hp; simp only [Bool.and_eq_true, beq_iff_eq] at hp
+   have h3 : (nib op2 3).ule 7#8 = true := by (simp only [nib]; bv_decide)
+   have h4 : (nib op2 4).ule 7#8 = true := by (simp only [nib]; bv_decide)
+   simp only [logicRn, logicFlagsSz, logicFlags_ok, LOp.ap, readRn, writeRn, bind_ok, pure_ok, get_ok, readRnL_ok _ _ h3,
+     readRnL_ok _ _ h4, writeRnL_ok _ _ _ h4, writeCcr_ite, writeCcr_zero, writeCcr_one, changeCcr_ok] at h
+   have hs := costI_state h; subst hs
+   exact ⟨c, h, by simp⟩))
+
+theorem cost_AND_L_RR (op op2 : BitVec 16) (st st' : Cpu) (c : BitVec 8)
+    (hp : Spec.Form.pat .AND_L_RR op op2 0 0 0 = true) (h : logicRn .and .L op2 2 st = .ok c st') :
+    ChargedFinal 2 0 st' c ∧ Spec.Form.mix .AND_L_RR = { i := 2 } := by
+  logicL_cost Spec.pat_AND_L_RR
+
+theorem cost_OR_L_RR (op op2 : BitVec 16) (st st' : Cpu) (c : BitVec 8)
+    (hp : Spec.Form.pat .OR_L_RR op op2 0 0 0 = true) (h : logicRn .or .L op2 2 st = .ok c st') :
+    ChargedFinal 2 0 st' c ∧ Spec.Form.mix .OR_L_RR = { i := 2 } := by
+  logicL_cost Spec.pat_OR_L_RR
+
+theorem cost_XOR_L_RR (op op2 : BitVec 16) (st st' : Cpu) (c : BitVec 8)
+    (hp : Spec.Form.pat .XOR_L_RR op op2 0 0 0 = true) (h : logicRn .xor .L op2 2 st = .ok c st') :
+    ChargedFinal 2 0 st' c ∧ Spec.Form.mix .XOR_L_RR = { i := 2 } := by
+  logicL_cost Spec.pat_XOR_L_RR
+
+theorem cost_STC_B (op : BitVec 16) (st st' : Cpu) (c : BitVec 8) (h : stcB op st = .ok c st') :
+    ChargedFinal 1 0 st' c ∧ Spec.Form.mix .STC_B = { i := 1 } := by
+  refine ⟨?_, rfl⟩
+  simp only [stcB, bind_ok, get_ok, writeRnB_nib] at h
+  have hs := costI_state h; subst hs
+  exact ⟨c, h, by simp⟩
+
+/-- JSR @@aa:8: two fetch cycles, two vector-read cycles (kind J) AT THE VECTOR SLOT, two stack cycles (kind K) AT THE
+    FRAME'S ADDRESS -/
+theorem cost_JSR_MEMIND (op : BitVec 16) (st st' : Cpu) (c : BitVec 8) (h : jsrIndirect op st = .ok c st') :
+    (∃ c1 c2 c3, costI 2 st' = .ok c1 st' ∧ calcStateWithAddr .J 2 ((op &&& 0x00ff).setWidth 32) st' = .ok c2 st' ∧
+      calcStateWithAddr .K 2 (frameAddr st.regs) st' = .ok c3 st' ∧ c = c1 + c2 + c3) ∧
+    Spec.Form.mix .JSR_MEMIND = { i := 2, j := 2, k := 2 } := by
+  refine ⟨?_, rfl⟩
+  simp only [jsrIndirect, bind_ok, readRnL_ok _ _ seven_ok, get_ok] at h
+  split at h
+  case h_2 => simp at h
+  case h_3 => simp at h
+  rename_i u s1 hpush
+  split at h
+  case h_2 => simp at h
+  case h_3 => simp at h
+  rename_i t s2 hrd
+  simp only [modify_ok, pure_ok] at h
+  split at h
+  case h_2 => simp at h
+  case h_3 => simp at h
+  rename_i c1 sa h1; have e1 := costI_state h1; subst e1
+  split at h
+  case h_2 => simp at h
+  case h_3 => simp at h
+  rename_i c2 sb2 h2; have e2 := calcStateWithAddr_state h2; subst e2
+  split at h
+  case h_2 => simp at h
+  case h_3 => simp at h
+  rename_i c3 sb3 h3; have e3 := calcStateWithAddr_state h3; subst e3
+  injection h with hc hs; subst hs
+  exact ⟨c1, c2, c3, h1, h2, h3, hc.symm⟩
+
 end H8.Props.C20Z
